@@ -29,6 +29,9 @@ def euler_states(gamma, tier):
     ms = [0.0, 0.5, -0.5, 1.0, -1.0, 2.0, -2.0, 3.0, -3.0, 0.999, -0.999, 1.001, -1.001, 1e-8]
     if tier == "quick":
         rs = rs[:5]
+    else:
+        rs = rs + [3.0, 30.0]
+        ms = ms + [-1e-8, 0.1, -0.1, 0.9, -0.9, 1.1, -1.1, 1.5, -1.5, 10.0, -10.0, 1.0 - 2 ** -52, 1.0 + 2 ** -52, -1.0 + 2 ** -53]
     out = []
     for r, m, p in itertools.product(rs, ms, rs):
         c = np.sqrt(gamma * p / r)
@@ -37,9 +40,9 @@ def euler_states(gamma, tier):
 
 
 def euler2d_states(gamma, tier):
-    rs = [1.0, 1e-3, 1e3] + ([0.3] if tier == "thorough" else [])
-    mn = [0.0, 0.5, -0.5, 1.0, -1.0, 2.0, -2.0, 0.999, -1.001]
-    mt = [0.0, 1.0, -1.0] + ([3.0] if tier == "thorough" else [])
+    rs = [1.0, 1e-3, 1e3] + ([0.3, 1e6] if tier == "thorough" else [])
+    mn = [0.0, 0.5, -0.5, 1.0, -1.0, 2.0, -2.0, 0.999, -1.001] + ([3.0, -3.0, 1e-8, 1.001, -0.999] if tier == "thorough" else [])
+    mt = [0.0, 1.0, -1.0] + ([3.0, -0.3] if tier == "thorough" else [])
     out = []
     for r, a, b, p in itertools.product(rs, mn, mt, rs):
         c = np.sqrt(gamma * p / r)
@@ -50,6 +53,9 @@ def euler2d_states(gamma, tier):
 def sw_states(g, tier):
     hs = [1.0, 1e-3, 1e3, 0.3, 1e-6, 1e6]
     fr = [0.0, 0.5, -0.5, 1.0, -1.0, 2.0, -2.0, 3.0, -3.0, 0.999, -0.999, 1.001, -1.001, 1e-8]
+    if tier == "thorough":
+        hs = hs + [3.0, 30.0, 1e-2, 1e2]
+        fr = fr + [-1e-8, 0.1, -0.1, 0.9, -0.9, 1.1, -1.1, 1.5, -1.5, 10.0, -10.0]
     out = []
     for h, f in itertools.product(hs, fr):
         out.append((h, f * np.sqrt(g * h)))
